@@ -45,12 +45,12 @@ LEVEL_TEXT = ("Proved in Coq at full strength (Properties/C02.v), for every jour
               "(account, c) in some column (both directions; not: a non-zero cumulated cell).  C02_total_lines -- Total (A+L) / Total "
               "(E+I+E) list exactly the commodities with a non-zero period amount over all A/L / all other accounts in some column, "
               "ascending; Delta lists the union of the two lists, with the numbers of C02_table_totals.  "
-              "CSV text (with -a, which the check always passes): C02_number_text -- Decimal.String is a function of the value; "
+              "CSV text (with and without -a; the check always passes -a): C02_number_text -- Decimal.String is a function of the value; "
               "C02_table_row_order -- the account rows are LedgerSpec.all_rows (A/L, then the others); C02_csv_records -- the records of "
               "the CSV renderer on the table are the rows of ledger_csv, field by field; C02_csv_is_ledger_csv -- balance_csv cfg ds = "
               "COk text -> text = the rows of ledger_csv joined by commas and newlines.  "
-              "Not proved: the sibling order without -a (unvalued weights are all zero, the order is then the name order as well; C06), "
-              "encoding/csv quoting (outside the model, see Table.v), and -- as everywhere -- that the model is the code: the binary's CSV, "
+              "Without -a an unvalued report has no weights, the stable sort moves nothing and the order is the same (proved).  "
+              "Not proved: encoding/csv quoting (outside the model, see Table.v), and -- as everywhere -- that the model is the code: the binary's CSV, "
               "the model's CSV and ledger_csv are compared on every run, which is how the Shorten aliasing defect (fixed in /repo 2f5b0b6) "
               "was found.")
 LEVEL_NOTE = ("Trusted: kernel, extraction, harness, the hand-written model (sampled tie to the code). Parser not in the loop (C07). "
